@@ -217,3 +217,108 @@ def load_known(prop):
         return []
     with open(p) as fh:
         return [k for k in json.load(fh) if k.get("property") == prop]
+
+
+# ------------------------------------------------------------------ coverage-guided engine (atheris / libFuzzer)
+
+def instrument_for_fuzz(modules):
+    """Imports the named pure-Python cvxopt modules under atheris' bytecode instrumentation.  Must run before
+    anything else imports them (vlib.worker calls it first thing for parts whose name starts with 'fuzz')."""
+    import importlib
+    import atheris
+    with atheris.instrument_imports(include=list(modules)):
+        for m in modules:
+            importlib.import_module(m)
+
+
+def run_fuzz(strategy, oracle, seed, evaluations, stats, journal=None, max_len=4096, max_calls_factor=6):
+    """Coverage-guided search: libFuzzer (through atheris) mutates the byte string that Hypothesis' `fuzz_one_input`
+    decodes into a case of `strategy`, guided by the branch coverage of the instrumented cvxopt modules; every decoded
+    case goes through the same `oracle` as the random search.  Runs in a forked child because `atheris.Fuzz()` never
+    returns; the child stops after `evaluations` oracle executions (or `max_calls_factor` times as many byte strings),
+    or at the first violation.  Returns None or dict(case, msg, detail) like run_given.  A run is pinned by `seed`
+    (libFuzzer -seed, empty corpus plus byte strings drawn from random.Random(seed)) as far as libFuzzer allows."""
+    import tempfile, shutil, random, pickle
+    work = tempfile.mkdtemp(prefix="fuzz-", dir=os.environ.get("VERIF_FUZZ_TMP") or os.path.dirname(os.environ.get("VERIF_OVERLAY", "/var/tmp/x")))
+    resf = os.path.join(work, "result.pkl")
+    corpus = os.path.join(work, "corpus")
+    os.makedirs(corpus)
+    rnd = random.Random(seed)
+    for i in range(8):
+        with open(os.path.join(corpus, "seed%d" % i), "wb") as fh:
+            fh.write(bytes(rnd.getrandbits(8) for _ in range(rnd.choice([64, 256, 1024]))))
+    sys.stdout.flush()
+    pid = os.fork()
+    if pid == 0:
+        code = 0
+        try:
+            import atheris
+            import hypothesis
+            from hypothesis import given
+            calls = [0]
+            ev0 = stats.evaluations
+
+            def finish(v):
+                stats.extra["fuzz_byte_strings"] = stats.extra.get("fuzz_byte_strings", 0) + calls[0]
+                stats.extra["fuzz_corpus_files"] = stats.extra.get("fuzz_corpus_files", 0) + len(os.listdir(corpus))
+                with open(resf + ".tmp", "wb") as fh:
+                    pickle.dump(dict(stats=stats.dump(), violation=v), fh)
+                os.replace(resf + ".tmp", resf)
+                sys.stdout.flush()
+                os._exit(0)
+
+            @hyp_settings(1)
+            @given(strategy)
+            def test(case):
+                if journal is not None:
+                    journal(case)
+                try:
+                    with_watchdog(oracle, case)
+                except CaseTimeout:
+                    stats.event("case_timeout")
+                except Violation as v:
+                    finish(dict(case=json.loads(canon(case)), msg=v.msg, detail=v.detail))
+
+            fuzz_one = test.hypothesis.fuzz_one_input
+
+            def one(data):
+                calls[0] += 1
+                fuzz_one(data)
+                if stats.evaluations - ev0 >= evaluations or calls[0] >= max_calls_factor * evaluations:
+                    if calls[0] >= max_calls_factor * evaluations and stats.evaluations - ev0 < evaluations:
+                        stats.budget_exhausted = True
+                    finish(None)
+
+            atheris.Setup([sys.argv[0], "-seed=%d" % (seed % (2 ** 31 - 1) + 1), "-max_len=%d" % max_len,
+                           "-len_control=0", "-runs=-1", "-timeout=0", "-rss_limit_mb=0", "-print_final_stats=0",
+                           "-verbosity=0", corpus], one)
+            atheris.Fuzz()
+            code = 4
+        except SystemExit:
+            raise
+        except BaseException:
+            import traceback
+            traceback.print_exc()
+            code = 5
+        os._exit(code)
+    _, status = os.waitpid(pid, 0)
+    try:
+        if os.WIFSIGNALED(status):
+            # died inside a journaled case: die the same way so that the runner attributes it
+            sys.stdout.flush()
+            os._exit(139 if os.WTERMSIG(status) == 11 else 134)
+        if not os.path.exists(resf):
+            raise RuntimeError("fuzz child ended with status %r without a result" % (status,))
+        with open(resf, "rb") as fh:
+            res = pickle.load(fh)
+    finally:
+        shutil.rmtree(work, ignore_errors=True)
+    d = res["stats"]
+    stats.evaluations = d["evaluations"]
+    stats.nontrivial = set(d["nontrivial"])
+    stats.samples = d["samples"]
+    stats.hist = d["hist"]
+    stats.excluded_known = d["excluded_known"]
+    stats.budget_exhausted = d["budget_exhausted"]
+    stats.extra = d["extra"]
+    return res["violation"]
